@@ -278,6 +278,10 @@ def run_old(case, env, res, tmpdir, state):
         if image.tell() != tell0:
             return [("tell-moved", tell0, image.tell())]
         sargs = image._check_style_args(dict(style))
+        if animation and sargs.get("method") == "anim":
+            # within an animation ANIM means one whole-image command per frame (documented);
+            # the library encodes those frames at the full render resolution
+            sargs["frame"] = True
         fmt = image._check_formatting(h, pw, v, ph)
         refs = []
         idxs = range(frames_n) if animation else [tell0]
@@ -290,6 +294,9 @@ def run_old(case, env, res, tmpdir, state):
         order = list(range(frames_n)) * case["repeat"] if animation else [0]
         if not case["tty"]:
             pass
+        if os.environ.get("VERIF_DEBUG_C06"):
+            import re as _re
+            sys.stderr.write("REFS %r\nDATA %r\nSARGS %r\n" % ([_re.findall(r"File=([^:]*):(.{30})", r) for r in refs], _re.findall(rb"File=([^:]*):(.{30})", data), sargs))
         return judge_stream(data, refs, order, rows, cols, personality, r0, res)
     finally:
         image.close()
@@ -342,7 +349,9 @@ def gen_old(rnd, persona):
     elif style == "iterm2":
         kw = {}
         if rnd.random() < 0.4:
-            kw["method"] = rnd.choice(["lines", "whole"])
+            # "anim": native animation for a still draw of an animated image, whole-image
+            # frames within an animation (documented fall-back)
+            kw["method"] = rnd.choice(["lines", "whole", "anim"])
         if rnd.random() < 0.3:
             kw["mix"] = rnd.random() < 0.5
         case["style_kw"] = kw
